@@ -99,7 +99,9 @@ Record BS (x : option key) (s : istate) : Prop := {
                  (ri_deferred (rinfo_of s k) <> [] \/ ri_paused (rinfo_of s k) <> [] \/ x = Some k);
   b_dn : forall k, kind_of s k = KDoesNotNeedToRun ->
            (exists v, stored s k = Some v /\ Some v = cvK k /\ concl s k v) /\ (forall d, In d (deps s k) -> curk s (d_key d)) /\
-           bAt s k <> 0 /\ pending_for s k
+           bAt s k <> 0 /\ pending_for s k;
+  (* a scan request that has its input cached has cached the order-only flag of that dependency *)
+  b_sord : forall rq, Sreq s rq -> forall i d, sq_input rq = Some i -> nth_error (deps s (sq_rule rq)) (sq_index rq) = Some d -> sq_order rq = d_order d
 }.
 Definition BInv (root : key) (x : option key) (s : istate) : Prop := BT root s /\ BC s /\ BS x s.
 
@@ -111,7 +113,8 @@ Record HInv (s : istate) : Prop := {
   h_dn : forall k, kind_of s k <> KDoesNotNeedToRun;
   h_bnd : forall k, cAt s k <= bAt s k /\ bAt s k <= is_epoch s;
   h_sig : forall k, bAt s k <> 0 -> res_sig (res_of s k) = r_sig (rules k);
-  h_rows : forall k, bAt s k <> 0 -> rowok s k
+  h_rows : forall k, bAt s k <> 0 -> rowok s k;
+  h_ns : forall k d, In d (deps s k) -> d_single d = false
 }.
 End Inc.
 
